@@ -1,5 +1,65 @@
-import XlVerif.Base
-/-! Driver for C02 (stub: replaced when the property's model is built). -/
+import XlVerif.Model.Parser
+/-! Driver for C02 (also used by C01).
+  `C02 tok <text>`                 → `impl=<tokens>`  tokens = `ttype/tsubtype/<value>` joined by `|`
+  `C02 parse <names> <text>`       → `impl=<tree>`    names = `<name>~<target>` joined by `|` (or empty)
+  texts are decimal code points joined by `.`; values are `s<codepoints>` or `f<num>/<den>`
+-/
 namespace XlVerif.Drv.C02
-def handle (_fields : List String) : String := "error=not-implemented"
+open XlVerif XlVerif.Model.Tokenizer XlVerif.Model.Parser
+
+def ttW : TType → String
+  | .noop => "noop" | .operand => "operand" | .function => "function" | .subexpr => "subexpression"
+  | .argument => "argument" | .opPre => "operator-prefix" | .opIn => "operator-infix"
+  | .opPost => "operator-postfix" | .wspace => "white-space" | .unknown => "unknown" | .arglist => "arglist"
+
+def tsW : TSub → String
+  | .none => "" | .start => "start" | .stop => "stop" | .text => "text" | .number => "number"
+  | .logical => "logical" | .error => "error" | .range => "range" | .math => "math"
+  | .concat => "concatenate" | .intersect => "intersect" | .union => "union" | .noneLit => "none"
+  | .pointer => "pointer"
+
+def tvW : TV → String
+  | .s v => "s" ++ textWire v
+  | .f q => "f" ++ ratWire q
+
+def tokW (t : Tok) : String := ttW t.t ++ "/" ++ tsW t.st ++ "/" ++ tvW t.v
+
+def lexErrW : XlVerif.Model.Tokenizer.Err → String
+  | .indexError => "X:IndexError" | .valueError => "X:ValueError"
+
+def perrW : PErr → String
+  | .lex e => lexErrW e
+  | .valueError => "X:ValueError" | .syntaxError => "X:SyntaxError" | .indexError => "X:IndexError"
+  | .keyError => "X:KeyError" | .unsupported => "unsupported"
+
+partial def astW : Ast → String
+  | .operand t => "(o " ++ tokW t ++ ")"
+  | .unop t r => "(u " ++ tokW t ++ " " ++ astW r ++ ")"
+  | .binop t l r => "(b " ++ tokW t ++ " " ++ astW l ++ " " ++ astW r ++ ")"
+  | .func t args => "(f " ++ tokW t ++ (args.foldl (fun acc a => acc ++ " " ++ astW a) "") ++ ")"
+
+def namesOf (w : String) : Option (List (List Char × List Char)) :=
+  if w.isEmpty then some [] else
+    (w.splitOn "|").mapM fun p =>
+      match p.splitOn "~" with
+      | [a, b] => do let x ← parseText? a; let y ← parseText? b; pure (x, y)
+      | _ => none
+
+def handle (fields : List String) : String :=
+  match fields with
+  | ["tok", t] =>
+    (match parseText? t with
+     | some s =>
+       (match getTokens s with
+        | .ok ts => kv [("impl", "|".intercalate (ts.map tokW))]
+        | .error e => kv [("impl", lexErrW e)])
+     | none => "error=bad-args")
+  | ["parse", ns, t] =>
+    (match namesOf ns, parseText? t with
+     | some names, some s =>
+       (match parse names s with
+        | .ok a => kv [("impl", astW a)]
+        | .error e => kv [("impl", perrW e)])
+     | _, _ => "error=bad-args")
+  | _ => "error=bad-request"
 end XlVerif.Drv.C02
